@@ -337,8 +337,17 @@ fn part_c(rep: &Report) {
                 let rec = RecCrc::new();
                 let mut rx = RxS::new(2, 8, &[8, 8, 8]).build(rec.clone(), TableMgr::none());
                 let mut last = DecapOut::Padding { consumed: 0 };
-                for p in &seq {
+                let first_at = seq.len() - 3;
+                let mut first_accepted = false;
+                for (k, p) in seq.iter().enumerate() {
+                    if k == first_at {
+                        // CRC calls made for earlier packets do not concern the train under test
+                        let _ = rec.take();
+                    }
                     last = do_decap(&mut rx, p);
+                    if k == first_at {
+                        first_accepted = matches!(last, DecapOut::Fragmented { .. });
+                    }
                     if let DecapOut::Completed { buf, .. } = &last {
                         let _ = rx.provision_storage(vec![0u8; buf.len()].into_boxed_slice());
                     }
@@ -351,7 +360,10 @@ fn part_c(rep: &Report) {
                 let conformant = total_counts == want_label.len() && crc_label == want_label;
                 acc.outcome(&format!("C:{}:{}", if conformant { "conformant" } else { "crafted" }, last.class()));
                 let wit = || json!({"abandoned_train_before": abandoned, "first_fragment_label": first_label.short(), "receiver_label_memory": prime.map(|l| l.short()), "total_length": total, "trailer_is_crc_over_label": hex(&crc_label), "packets": seq.iter().map(|p| hex(p)).collect::<Vec<_>>(), "outcome": last.brief()});
-                for c in rec.take() {
+                // a receiver may refuse the first fragment of a crafted train outright; what it then recomputes for
+                // the following fragments concerns whatever older train is open, not this one
+                let calls = if first_accepted || conformant { rec.take() } else { vec![] };
+                for c in calls {
                     if c.label != want_label || c.total != total || c.pt != 0x0800 || c.pdu != x {
                         rep.violation(&format!("C12|receiver|crc-arguments|{}", if first_label == Lbl::ReUse { "reuse" } else { "explicit" }), total_counts as u64, || (format!("decap recomputed the CRC over (total_len {}, pt {:#06x}, label {}, {} PDU bytes); the first fragment {} so the label argument must be {} and the other arguments the received total length {}, protocol type 0x0800 and the 6 reassembled bytes", c.total, c.pt, hex(&c.label), c.pdu.len(), if first_label == Lbl::ReUse { "used label re-use" } else { "carried its label" }, if want_label.is_empty() { "empty".to_string() } else { hex(&want_label) }, total), wit()));
                     }
